@@ -12,7 +12,7 @@ LEVEL = 'exploration'
 CASES_ARE_COUNTED = True
 TIERS = {'quick': {'runs': 16000, 'budget_s': 45}, 'thorough': {'runs': 1200000, 'budget_s': 900}}
 RULE = ('one run = one seeded history on one engine over a LIFO stack of frames, each an open unification (PUSH) or a suspended use of the fact '
-        'predicate p/1, p/2 (USE + STEP), with ASSERT(term over pool variables; routes assert_fact / query(assertz) / compiled wrapper with the goal '
+        'predicate p/1, p/2 (USE + STEP), plus up to three independent uses (query or retract with own variables only) stepped in any order, with ASSERT(term over pool variables; routes assert_fact / query(assertz) / compiled wrapper with the goal '
         'in a bound variable / compiled inline goal) at any point, so that facts are asserted with variables bound before, after, through chains and '
         'inside structures, and are used while other uses of the same fact are suspended. A case = one answer (or end) of a use compared with the '
         'copy-semantics model over the pattern AND every pool variable; non-trivial = the fact answered contains a variable, or was asserted while '
@@ -26,7 +26,7 @@ ASSUMPTIONS = [
 COMPONENTS = {'real': ['yldprolog.engine assert_fact/Answer/match_dynamic/assertz/asserta builtins, unify', 'compiled wrapper clauses'],
               'stub': ['scheduler holding the open unifications and suspended uses'],
               'oracle': ['copy-semantics model: ASSERT stores resolve(term, current substitution) with remaining variables made fact-local; every USE renames the fact apart']}
-REQUIRED_PROBES = ('assert_with_bound_variable', 'assert_with_unbound_variable', 'assert_bound_inside_structure', 'use_answer', 'use_while_other_use_suspended',
+REQUIRED_PROBES = ('independent_use_stepped_while_others_suspended', 'assert_with_bound_variable', 'assert_with_unbound_variable', 'assert_bound_inside_structure', 'use_answer', 'use_while_other_use_suspended',
                    'use_after_binding_changed', 'nonground_fact_answered', 'route_fact', 'route_query', 'route_wrapv', 'route_inline')
 
 _WRAP = None
@@ -104,6 +104,15 @@ def gen(seed, tier):
                 else:
                     pat.append(small_term(rng, nv, 2, 0.35))
             ops.append(['USE', pat])
+        elif k < 0.84:
+            # an independent use: its pattern has only its own variables, so it may be stepped at any time,
+            # whatever else is suspended (query or retract)
+            ar = rng.choice((1, 1, 2))
+            pat = [(['v', 100 + j] if rng.random() < 0.6 else TM.J(TM.rnd_term(rng, 0, 1, lists=False) if rng.random() < 0.5 else ('a', rng.choice('ab')))) for j in range(ar)]
+            pat = [x if x[0] != 's' else ['a', 'a'] for x in pat]
+            ops.append(['IUSE', rng.choice('qqr'), pat])
+        elif k < 0.92:
+            ops.append(['ISTEP', rng.randrange(3)])
         else:
             ops.append(['STEP'])
     return {'nv': nv, 'ops': ops}
@@ -116,6 +125,10 @@ def show_op(op):
         return '%s[%s] p(%s)' % ('asserta' if op[1] else 'assertz', op[2], ','.join(TM.show(TM.T(t)) for t in op[3]))
     if op[0] == 'USE':
         return 'USE p(%s)' % ','.join(TM.show(TM.T(t)) for t in op[1])
+    if op[0] == 'IUSE':
+        return 'start independent %s p(%s)' % ('query' if op[1] == 'q' else 'retract', ','.join(TM.show(TM.T(t)) for t in op[2]))
+    if op[0] == 'ISTEP':
+        return 'step independent use #%d' % op[1]
     return ' '.join(str(x) for x in op)
 
 
@@ -134,6 +147,7 @@ def execute(plan):
     meta = {}            # record id -> dict(bound_at_assert, s_at_assert)
     s = {}
     stack = []           # frames: dict(kind='unify'|'use', task, s_before, ...)
+    indep = []           # independent uses (own variables only): steppable in any order
 
     def norm(t):
         # pool variables modulo pool size; indices >= 100 are use-local
@@ -310,6 +324,59 @@ def execute(plan):
                     continue
                 if not step_use(stack[-1]):
                     break
+            elif kind in ('IUSE', 'ISTEP'):
+                if kind == 'IUSE':
+                    if len(indep) >= 3:
+                        log.ev('noop')
+                        continue
+                    pat = [TM.T(t) for t in op[2]]
+                    local = {}
+                    mpat = [TM.rename(t, local, model.fresh) for t in pat]
+                    vm = {}
+                    pargs = [TM.build(yp, t, vm) for t in pat]
+                    key = ('p', len(pat))
+                    g = yp.query('p', pargs) if op[1] == 'q' else yp.query('retract', [yp.functor('p', pargs)])
+                    iu = {'task': GenTask(g), 'kind': op[1], 'key': key, 'pat': mpat, 'pargs': pargs, 'snap': None, 'pos': 0, 'show': show_op(op), 'n': 0}
+                    indep.append(iu)
+                else:
+                    if not indep:
+                        log.ev('noop')
+                        continue
+                    iu = indep[op[1] % len(indep)]
+                log.count('cases')
+                if iu['snap'] is None:
+                    iu['snap'] = model.snapshot(iu['key'])
+                want = None
+                while iu['pos'] < len(iu['snap']):
+                    rid, row = iu['snap'][iu['pos']]
+                    iu['pos'] += 1
+                    s2 = model.match(iu['pat'], row, {})
+                    if s2 is None:
+                        continue
+                    if iu['kind'] == 'r':
+                        if not model.has_id(iu['key'], rid):
+                            continue
+                        model.remove_id(iu['key'], rid)
+                    want = TM.canon([TM.resolve(p_, s2) for p_ in iu['pat']])
+                    break
+                ok = iu['task'].step()
+                ids_ = {}
+                got = TM.canon([TM.observe(a, ids_) for a in iu['pargs']]) if ok else None
+                if len(indep) > 1 or n_uses():
+                    log.count('independent_use_stepped_while_others_suspended')
+                log.ev('iuse', iu['kind'], ok, want is not None)
+                if got != want:
+                    log.violation('use-binding', {'use': iu['show'], 'answer_no': iu['n'] + 1, 'engine': None if got is None else [TM.show(x) for x in got],
+                                                  'model': None if want is None else [TM.show(x) for x in want],
+                                                  'note': 'independent use (own variables only), stepped while other uses were suspended'})
+                    break
+                iu['n'] += 1
+                if not ok:
+                    indep.remove(iu)
+                # nothing the independent use does may show in the pool variables
+                if pool.observe_all() != pool.model_all(s):
+                    log.violation('use-binding', {'use': iu['show'], 'note': 'an independent use changed the bindings of the asserting context'})
+                    break
     except TM.Cyclic:
         log.count('ended_unspecified_cyclic')
         log.ev('cyclic-end')
@@ -321,6 +388,8 @@ def execute(plan):
         log.violation('raises', {'exception': type(e).__name__})
     while stack:
         stack.pop()['task'].close()
+    for iu in indep:
+        iu['task'].close()
     return log.result()
 
 
